@@ -343,7 +343,18 @@ func c02main(c *Ctx) {
 			}
 			if failing != 4 {
 				cnt := r.Intn(3)
-				cores[failing].Core().Fail = func(_ int, p []byte) (bool, int) { return true, []int{len(p), len(p) / 2, 0}[cnt] }
+				// ... or it answers with a SHORT count and no error at all (a sink that takes what fits): it was handed the
+				// whole record in one Write, that is all the library owes it
+				silent := r.P(30)
+				if silent {
+					c.R.Add("calls_with_a_pool_member_that_answers_short_without_an_error", 1)
+				}
+				cores[failing].Core().Fail = func(_ int, p []byte) (bool, int) {
+					if silent {
+						return false, []int{len(p) / 2, 1, len(p) - 1}[cnt]
+					}
+					return true, []int{len(p), len(p) / 2, 0}[cnt]
+				}
 				// the error may be of the kind that calls itself temporary (EAGAIN, EINTR, also wrapped): still one Write each
 				ek := r.Intn(5)
 				cores[failing].Core().Err = func(int) error {
